@@ -82,6 +82,13 @@ def run_impl(sc):
                 elif op[0] == "write":
                     sm.current_state_value = eng.state_value(sc, op[1])
                     r = None
+                elif op[0] == "add":
+                    sm.add_listener(*[mod.LATE[p] for p in op[1]])
+                    for p in op[1]:
+                        for p_, kind, k, _scripts, dflt in sc["tbl"]:
+                            if p_ == p and kind == 0 and k >= 500:
+                                setattr(mod.LATE[p], eng.cbname([kind, k]), eng.from_json(dflt["r"]))
+                    r = None
                 else:
                     raise ValueError(op)
                 return ["v", eng.to_json(r)]
@@ -96,7 +103,8 @@ def run_impl(sc):
             sm, out = None, ["x", eng.exn_json(e)]
         def assign_attrs(machine, mdl, lsts):
             objs = {0: machine, 1: mdl}
-            objs.update({p: o for p, o in zip(range(2, len(sc["provs"])), lsts)})
+            late_ = set(sc.get("late", []))
+            objs.update({p: o for p, o in zip([q for q in range(2, len(sc["provs"])) if q not in late_], lsts)})
             for p, kind, k, _scripts, dflt in sc["tbl"]:
                 if kind == 0 and k >= 500 and objs.get(p) is not None:
                     setattr(objs[p], eng.cbname([kind, k]), eng.from_json(dflt["r"]))
@@ -113,10 +121,11 @@ def run_impl(sc):
         # ---- the copy
         R.log = []
         try:
-            if sc["how"] == "deepcopy":
-                clone = copy.deepcopy(sm)
-            else:
-                clone = pickle.loads(pickle.dumps(sm))
+            clone = sm
+            gens = []
+            for how in sc["how"].split("+"):           # a copy, a copy of the copy, ...
+                clone = copy.deepcopy(clone) if how == "deepcopy" else pickle.loads(pickle.dumps(clone))
+                gens.append(clone)
             out = ["v", None]
         except Exception as e:  # noqa: BLE001
             clone, out = None, ["x", eng.exn_json(e)]
@@ -128,7 +137,7 @@ def run_impl(sc):
         for (tag, p, kind, k), n in list(R.count.items()):
             if tag == 0:
                 R.count[(1, p, kind, k)] = n
-        obs_b = pre + [observe(clone, clone.model, out)]
+        obs_b = pre + [observe(g, g.model, out) for g in gens]
         obs_a = list(pre)
         # ---- direct assertions on what the property names
         if clone.model is sm.model:
@@ -165,7 +174,7 @@ def run_impl(sc):
 
 def coq_case(sc, obs):
     a = dict(sc, ops=[["construct"]] + sc["prefix"] + sc["suffixA"])
-    b_ = dict(sc, ops=[["construct"]] + sc["prefix"] + [["clone"]] + sc["suffixB"])
+    b_ = dict(sc, ops=[["construct"]] + sc["prefix"] + [["clone"]] * len(sc["how"].split("+")) + sc["suffixB"])
     items = ["(wfc " + eng.coq_case(a, obs["A"]) + ")", "(wfc " + eng.coq_case(b_, obs["B"]) + ")",
              f"(asserted {0 if obs['bad'] else 1})"]
     return "[" + "; ".join(items) + "]"
@@ -177,17 +186,39 @@ def render_source(sc):
 
 
 def split_ops(rng, sc):
-    ops = [op for op in sc["ops"][1:] if op[0] in ("send", "activate", "write")]
+    ops = [op for op in sc["ops"][1:] if op[0] in ("send", "activate", "write", "add")]
     k = rng.randint(0, len(ops)) if rng.random() < 0.8 else 0
-    sc["prefix"] = ops[:k]
+    sc["prefix"] = ops[:k] + [op for op in ops[k:] if op[0] == "add"]      # listeners are attached before the copy
     ne = sc["ne"]
 
     def suffix():
         return [["send", rng.randrange(ne + 1), 60 + i] if rng.random() < 0.9 else ["activate"]
                 for i in range(rng.randint(1, 5))]
     sc["suffixA"], sc["suffixB"] = suffix(), suffix()
-    sc["how"] = rng.choice(["deepcopy", "pickle"])
+    sc["how"] = "+".join(rng.choice(["deepcopy", "pickle"]) for _ in range(rng.choice([1, 1, 1, 2, 2, 3])))
     sc["ops"] = [["construct"]] + sc["prefix"] + sc["suffixA"]
+    return sc
+
+
+def add_late(sc, rng, p_late=0.5):
+    """some listeners are attached after construction, several with one add_listener call"""
+    np_ = len(sc["provs"])
+    coro = {p for p, _k, _n in (tuple(x) for x in sc.get("async", []))}
+    late = []
+    if rng.random() < p_late:
+        for p in range(2, np_):
+            only = any(nm[0] == 0 and not any(nm in sc["provs"][q] for q in range(np_) if q != p and q not in late)
+                       for nm in sc["provs"][p])
+            if not only and p not in coro and rng.random() < 0.8:      # (coroutine late listeners: see D11, C12)
+                late.append(p)
+    sc["late"] = sorted(late)
+    if late:
+        ops = sc["ops"]
+        if rng.random() < 0.6:
+            ops.insert(rng.randint(1, len(ops)), ["add", list(late)])
+        else:
+            for p in late:
+                ops.insert(rng.randint(1, len(ops)), ["add", [p]])
     return sc
 
 
@@ -195,8 +226,10 @@ def generate(rng, tier):
     n = 1500 if tier == "quick" else 25000
     scs = []
     for _ in range(n):
-        sc = enggen.gen_scenario(rng, K)
+        many = rng.random() < 0.3      # a share of machines with several listeners whose names others provide too
+        sc = enggen.gen_scenario(rng, dict(K, listeners=(2, 4), multi_prov=0.6, conv=0.5) if many else K)
         sc["inst_attrs"] = rng.random() < 0.6
+        add_late(sc, rng, 0.9 if many else 0.5)
         # guards provided both by machine/model and by a listener regroup on the clone (D19): keep each
         # guard name within one of the two sides
         scs.append(split_ops(rng, sc))
@@ -211,7 +244,7 @@ def nontrivial(sc, obs):
     the two suffixes differ, with >= 1 callback running on the clone afterwards."""
     if sc["suffixA"] == sc["suffixB"]:
         return False
-    nb = sum(1 for o in obs["B"][len(sc["prefix"]) + 2:] for e in o["log"] if e[0] == "c")
+    nb = sum(1 for o in obs["B"][len(sc["prefix"]) + 1 + len(sc["how"].split("+")):] for e in o["log"] if e[0] == "c")
     return nb >= 1 and (len(sc["prefix"]) >= 1 or bool(sc.get("async")))
 
 
@@ -220,6 +253,7 @@ def extra_coverage(scs, obs, verdicts):
     h = collections.Counter()
     for s in scs:
         h[s["how"]] += 1
+        h["late listeners"] += 1 if s.get("late") else 0
         h["async" if s.get("async") else "sync"] += 1
         h["rtc" if s.get("rtc", True) else "non-rtc"] += 1
         h["cloned before any event" if not s["prefix"] else "cloned after events"] += 1
@@ -231,7 +265,7 @@ CLASSIFIERS = {}
 
 def explain(sc, obs):
     a = dict(sc, ops=[["construct"]] + sc["prefix"] + sc["suffixA"])
-    b_ = dict(sc, ops=[["construct"]] + sc["prefix"] + [["clone"]] + sc["suffixB"])
+    b_ = dict(sc, ops=[["construct"]] + sc["prefix"] + [["clone"]] * len(sc["how"].split("+")) + sc["suffixB"])
     from . import core
     return {"direct_assertions": obs["bad"],
             "original": core.coq_eval(RUN_MODULE, "diag fl_C17 " + eng.coq_case(a, obs["A"]))[-3000:],
